@@ -28,9 +28,10 @@ class MachineryError(Exception):
 
 
 _POOL_FN = None
+_POOL_TIMEOUT = None
 
 
-def _call(args):
+def _call_plain(args):
     try:
         return _POOL_FN(args)
     except BaseException as e:  # noqa: BLE001
@@ -39,14 +40,62 @@ def _call(args):
         return {"__worker_error__": "".join(traceback.format_exception(type(e), e, e.__traceback__))[-2000:]}
 
 
-def pmap(fn, items, chunksize=None, procs=None):
-    """Fork-based parallel map; fn must be a module-level function."""
-    global _POOL_FN
+def _call(args):
+    """Run one item; with a timeout the item runs in a forked child that the kernel can kill even
+    when the implementation under test loops inside C code (regular expressions)."""
+    if not _POOL_TIMEOUT:
+        return _call_plain(args)
+    import pickle, select, signal
+    r, w = os.pipe()
+    pid = os.fork()
+    if pid == 0:
+        try:
+            os.close(r)
+            data = pickle.dumps(_call_plain(args))
+            with os.fdopen(w, "wb") as f:
+                f.write(data)
+        finally:
+            os._exit(0)
+    os.close(w)
+    chunks = []
+    deadline = time.time() + _POOL_TIMEOUT
+    timed_out = False
+    with os.fdopen(r, "rb") as f:
+        while True:
+            left = deadline - time.time()
+            if left <= 0:
+                timed_out = True
+                break
+            ready, _, _ = select.select([f], [], [], min(left, 5.0))
+            if ready:
+                b = f.read1(1 << 20) if hasattr(f, "read1") else f.read()
+                if not b:
+                    break
+                chunks.append(b)
+    if timed_out:
+        try:
+            os.kill(pid, signal.SIGKILL)
+        except OSError:
+            pass
+    os.waitpid(pid, 0)
+    if timed_out:
+        return {"__timeout__": True}
+    try:
+        return pickle.loads(b"".join(chunks))
+    except Exception:  # noqa: BLE001 - the child died without an answer (SystemExit via os._exit, crash)
+        return {"__died__": True}
+
+
+def pmap(fn, items, chunksize=None, procs=None, timeout=None):
+    """Fork-based parallel map; fn must be a module-level function.  With `timeout` (seconds per
+    item) a result may be {"__timeout__": True} or {"__died__": True}."""
+    global _POOL_FN, _POOL_TIMEOUT
     items = list(items)
     if not items:
         return []
     procs = min(procs or common.NCPU, len(items))
     _POOL_FN = fn
+    _POOL_TIMEOUT = timeout
     if procs <= 1:
         res = [_call(x) for x in items]
     else:
